@@ -346,6 +346,31 @@ def cfWrite (s : State) (stop n : Nat) (prevOk : Bool) : State × Out :=
         -- store write first, then the in-memory tip, then the notifications
         ({ s with fst := endH, ftip := ⟨stop, endH⟩ }, { ntf := connRange s.log endH start n })
 
+/-! ### inside one filter-header write: tip update versus event emission
+
+After the store write `writeCFHeadersMsg` raises the in-memory filter tip and then announces the
+blocks one by one; every send is a rendezvous with the subscription manager, which may serve a new
+subscription (a backlog request) between two of them.  `tipFirst` is the order found in the source
+(`Gen.BlockMgr.cfTipBeforeNotify`). -/
+
+inductive CfStep where
+  | raiseTip
+  | emit (id height : Nat)
+deriving DecidableEq, Repr
+
+def cfEmits (log : List Nat) (start : Nat) : Nat → List CfStep
+  | 0 => []
+  | n + 1 => .emit (log.getD start 0) start :: cfEmits log (start + 1) n
+
+def cfSteps (tipFirst : Bool) (log : List Nat) (start n : Nat) : List CfStep :=
+  if tipFirst then .raiseTip :: cfEmits log start n else cfEmits log start n ++ [.raiseTip]
+
+/-- run the micro-steps from in-memory tip `m`: each emission with the tip visible at that moment -/
+def cfRun (endH : Nat) : Nat → List CfStep → List (Nat × Nat × Nat)
+  | _, [] => []
+  | _, .raiseTip :: rest => cfRun endH endH rest
+  | m, .emit i h :: rest => (i, h, m) :: cfRun endH m rest
+
 def backlogRange (log : List Nat) : Nat → Nat → Option (List Node)
   | _, 0 => some []
   | i, n + 1 =>
@@ -361,6 +386,11 @@ def backlog (s : State) (h : Nat) : Out :=
   else match backlogRange s.log (h + 1) (best - h) with
     | none => { res := .err }
     | some bl => { best := best, bl := bl }
+
+/-- the backlog a subscriber gets who registers right after the `k`-th event of the write
+`cfWrite s stop n true` (1 ≤ k ≤ n): computed from the in-memory tip as it is at that moment -/
+def cfProbe (tipFirst : Bool) (s : State) (stop n h : Nat) : Out :=
+  if tipFirst then backlog (cfWrite s stop n true).1 h else backlog s h
 
 /-! ### the machine -/
 
